@@ -14,9 +14,13 @@ wt=/tmp/vseed_$id
 git -C /repo worktree remove --force "$wt" 2>/dev/null
 git -C /repo worktree add -q "$wt" HEAD || exit 2
 ( cd "$wt" && git apply "$src/SEED$i.diff" ) || { echo "SEED $id: patch does not apply"; git -C /repo worktree remove --force "$wt"; exit 2; }
-( cd "$wt" && PYTHONPATH="$wt" /venv/bin/python "$src/SEED${i}_demo.py" > /tmp/vseed_$id.demo_with.log 2>&1 ); rc_with=$?
-( cd /repo && /venv/bin/python "$src/SEED${i}_demo.py" > /tmp/vseed_$id.demo_without.log 2>&1 ); rc_without=$?
-( cd "$wt" && PYTHONPATH="$wt" /venv/bin/python -m pytest -q -p no:cacheprovider --timeout=900 --continue-on-collection-errors -q 2>&1 | tail -1 > /tmp/vseed_$id.tests.log )
+# run the demo from a neutral directory (the script's own directory is sys.path[0] and must not contain an iodata package)
+demodir=$(mktemp -d /tmp/vseed_demo.XXXXXX)
+cp "$src/SEED${i}_demo.py" "$demodir/demo.py"
+( cd "$demodir" && PYTHONPATH="$wt" /venv/bin/python demo.py > /tmp/vseed_$id.demo_with.log 2>&1 ); rc_with=$?
+( cd "$demodir" && PYTHONPATH=/repo /venv/bin/python demo.py > /tmp/vseed_$id.demo_without.log 2>&1 ); rc_without=$?
+rm -rf "$demodir"
+( cd "$wt" && PYTHONPATH="$wt" /venv/bin/python -m pytest -q -p no:cacheprovider --timeout=900 --continue-on-collection-errors 2>&1 | grep -E "passed|failed" | tail -1 > /tmp/vseed_$id.tests.log )
 tests=$(cat /tmp/vseed_$id.tests.log)
 mkdir -p "$dest"
 cp "$src/SEED$i.diff" "$dest/patch.diff"
